@@ -231,7 +231,11 @@ func runCase(r *mon.Run, idx int, c encCase) {
 			r.Eval(1)
 			key := fmt.Sprintf("%s id=%s pos=%d fill=%v after=%d", caseName, p.Name, pos, fillNames, after)
 			r.Distinct(key)
-			r.Tab("kind_x_pos", fmt.Sprintf("%c@%d", p.Kind, pos))
+			if pos < 16 {
+				r.Tab("kind_x_pos", fmt.Sprintf("%c@%d", p.Kind, pos))
+			} else {
+				r.Tab("kind_x_pos", fmt.Sprintf("%c@16..255", p.Kind))
+			}
 			r.Tab("matching_stanza_index", idxClass(pi))
 			replay := map[string]any{"list": c.list, "len": c.length, "armor": c.armored, "identity": p.Name, "pos": pos, "fillers": fillNames, "after": after}
 			if !res.Clean() {
